@@ -497,12 +497,17 @@ impl<S: Sub> DynSub for S {
                 scope.spawn(move || {
                     // ---- deterministic sweep (work-stealing by chunks) ----
                     let mut sw = Stats::default();
+                    let sweep_trace = std::env::var("LMCHECK_TRACE").ok().map(|d| PathBuf::from(d).join(format!("{}-{}-{}.json", prop, Sub::name(self), shard)));
                     loop {
                         let start = next_sweep.fetch_add(64, Ordering::Relaxed) as usize;
                         if start >= sweep.len() || stop.load(Ordering::Relaxed) {
                             break;
                         }
                         for case in &sweep[start..(start + 64).min(sweep.len())] {
+                            if let Some(t) = &sweep_trace {
+                                let rf = ReplayFile { property: prop.to_string(), sub: Sub::name(self).to_string(), signature: String::new(), message: String::new(), case: serde_json::to_value(case).unwrap_or(Value::Null) };
+                                let _ = std::fs::write(t, serde_json::to_string(&rf).unwrap_or_default());
+                            }
                             let v = guarded(|| self.check(case, cx));
                             if let Verdict::Fail(f) = &v {
                                 let mut fl = failures.lock().unwrap();
